@@ -323,8 +323,12 @@ def build_skel(V, cfg):
         act = ControlAction(wn.get_link('P8'), 'status', LinkStatus.Closed)
         wn.add_control('ctl', Control(SimTimeCondition(wn, Comparison.eq, 3600), act))
         # rules that only READ removal candidates: the dead-end junction J3 and the series pipe P5 (their actions go to the main P1)
-        wn.add_control('r_j3', Rule(ValueCondition(wn.get_node('J3'), 'pressure', Comparison.lt, 10.0), [ControlAction(wn.get_link('P1'), 'status', LinkStatus.Open)], name='r_j3'))
-        wn.add_control('r_p5', Rule(ValueCondition(wn.get_link('P5'), 'flow', Comparison.gt, 0.5), [ControlAction(wn.get_link('P1'), 'status', LinkStatus.Open)], name='r_p5'))
+        # (each candidate is read by the LAST clause of a compound condition only)
+        from wntr.network.controls import AndCondition, OrCondition
+        c_j3 = OrCondition(ValueCondition(wn.get_node('T'), 'level', Comparison.lt, 1.0), ValueCondition(wn.get_node('J3'), 'pressure', Comparison.lt, 10.0))
+        c_p5 = AndCondition(SimTimeCondition(wn, Comparison.ge, 1800), AndCondition(ValueCondition(wn.get_node('T'), 'level', Comparison.gt, 0.5), ValueCondition(wn.get_link('P5'), 'flow', Comparison.gt, 0.5)))
+        wn.add_control('r_j3', Rule(c_j3, [ControlAction(wn.get_link('P1'), 'status', LinkStatus.Open)], name='r_j3'))
+        wn.add_control('r_p5', Rule(c_p5, [ControlAction(wn.get_link('P1'), 'status', LinkStatus.Open)], name='r_p5'))
     info = {'patterns': {}, 'bases': {}}
     for pn, n in (('A', 2), ('B', 3)):
         ms = [V.real('m%s%d' % (pn, k), -5, 5) for k in range(n)]
